@@ -273,7 +273,9 @@ class World:
             if T is None:
                 return
             P = rec.add(d.c, T, Q) if dd % 2 else T
-            data = b"\x04" + P[0].to_bytes(l, "big") + P[1].to_bytes(l, "big")
+            data = _pt_bytes(d, P, ("uncompressed", "compressed", "hybrid", "raw")[(dd // 2) % 4])
+            if how != "bytes" and len(data) == 2 * l:
+                data = _pt_bytes(d, P, "compressed")
         else:
             raise ValueError(kind)
         if how == "bytes":
